@@ -1,7 +1,7 @@
 # C16 — mirrored datagrams reach the third-party collector unchanged.
 # The REAL mirrorIPFIX / mirrorSFlow goroutines (in-package verif driver) send through their own raw
 # socket; a SOCK_RAW/IPPROTO_UDP receive socket observes the complete packets on the loopback.
-import json
+import json, os
 import vf
 from props.common import hx
 
@@ -21,7 +21,9 @@ class P:
         for i in range(budget):
             proto = ["ipfix", "sflow"][i % 2]
             mx = rng.choice([512, 1500, 1500, 9000])
-            port = rng.randrange(20000, 60000)
+            # (the target port also depends on the process: the observer is a raw socket that sees every UDP packet on the host, and two
+            # runs of this check at the same time with the same seed would otherwise watch each other's packets)
+            port = 20000 + (rng.randrange(40000) + os.getpid() * 7919) % 40000
             lens = [0, 1, mx - 29, mx - 28, mx - 27, mx - 1, mx] + [rng.randrange(0, mx + 1) for _ in range(6)]
             # where an IP layer with a 1500-octet MTU cuts (max-udp-size above it only): payloads that end exactly at, one before and one
             # after a fragment boundary (28 + n = 20 + k * 1480), and at the largest unfragmented size
